@@ -30,7 +30,7 @@ def plan(tier):
             "min_nontrivial": 60,
             "min_counters": {"elements_compared": 500, "kind:lit": 300, "kind:match": 300, "kind:any": 200,
                              "kind:all": 200, "kind:anymatch": 100, "selects_checked": 50,
-                             "builtin_collection_constraints": 100, "patterns_over_a_tuple_field": 150, "patterns_built_from_reused_sub_patterns": 200, "patterns_over_an_optional_collection": 150}}
+                             "builtin_collection_constraints": 100, "patterns_over_a_tuple_field": 150, "patterns_built_from_reused_sub_patterns": 200, "patterns_over_an_optional_collection": 150, "patterns_quantified_twice": 150}}
 
 
 def setup(ctx):
@@ -460,6 +460,18 @@ def run(spec, ctx):
         detail = extra_problems[:2] + [f"missing elements {[idn.get(id(o), '?') for o in missing_problems][:4]}"] * bool(missing_problems) + lost_parts[:2]
         return {"status": "fail", "kind": "pattern-mismatch", "key": key, "detail": "; ".join(detail) + " | " + skeleton(pat)}
     if spec.get("reuse") and not selects:
+        # the pattern itself is quantified a second time
+        try:
+            again = {id(r) for r in an(m).evaluate()}
+        except Exception as e:
+            from krrood.entity_query_language import symbolic as S
+            S.SymbolicExpression._symbolic_expression_stack_.clear()
+            return {"status": "fail", "kind": "reuse:exception:" + type(e).__name__, "key": None,
+                    "detail": f"the pattern quantified a second time: {type(e).__name__}: {e}"[:300] + " | " + skeleton(pat)}
+        C["patterns_quantified_twice"] += 1
+        if again != {id(r) for r in rows if not (hasattr(r, "keys") and not isinstance(r, mm.Symbol))}:
+            return {"status": "fail", "kind": "reuse:pattern-mismatch", "key": None,
+                    "detail": f"the pattern quantified a second time gives {len(again)} elements, the first time {len(rows)} rows | " + skeleton(pat)}
         # the pattern objects written for the attributes are used in a second pattern
         try:
             got2 = {id(r) for r in an(M.entity_matching(root_T, list(dom))(**kw)).evaluate()}
